@@ -3,7 +3,10 @@
 
 /// leap rule of the calendar in force at the end of February of year y
 pub fn is_leap(y: i64) -> bool {
-  if y <= 1582 { y % 4 == 0 } else { (y % 4 == 0 && y % 100 != 0) || y % 400 == 0 }
+  // years are 1..9999: 16-bit arithmetic keeps the solver's remainder circuits small (outside that range: not leap, never used)
+  if y < 0 || y > 65535 { return false; }
+  let v = y as u16;
+  if y <= 1582 { v % 4 == 0 } else { (v % 4 == 0 && v % 100 != 0) || v % 400 == 0 }
 }
 
 /// nominal number of the last day of month m (31 for October 1582: 1582-10-31 exists)
@@ -78,3 +81,57 @@ pub fn day_at_pos(y: i64, m: i64, pos: i64) -> i64 {
 
 /// weekday index (0 = Sunday) from the day number
 pub fn weekday(ord: i64) -> i64 { (ord + 1) % 7 }
+
+fn next_month(y: i64, m: i64) -> (i64, i64) { if m == 12 { (y + 1, 1) } else { (y, m + 1) } }
+fn prev_month(y: i64, m: i64) -> (i64, i64) { if m == 1 { (y - 1, 12) } else { (y, m - 1) } }
+
+/// closed form of n successor / predecessor steps for small |n| (at most two month borders are crossed): None when the
+/// result would leave 0001..9999 or lies further away.  Lemma 14.L ties it to `succ`/`pred` one step at a time.
+pub fn near(y: i64, m: i64, d: i64, n: i64) -> Option<(i64, i64, i64)> {
+  let pos = pos_in_month(y, m, d) + n;
+  let dim = days_in_month(y, m);
+  if pos >= 1 && pos <= dim { return Some((y, m, day_at_pos(y, m, pos))); }
+  if pos > dim {
+    let (y1, m1) = next_month(y, m);
+    if y1 > 9999 { return None; }
+    let p1 = pos - dim;
+    let d1 = days_in_month(y1, m1);
+    if p1 <= d1 { return Some((y1, m1, day_at_pos(y1, m1, p1))); }
+    let (y2, m2) = next_month(y1, m1);
+    if y2 > 9999 { return None; }
+    let p2 = p1 - d1;
+    if p2 <= days_in_month(y2, m2) { return Some((y2, m2, day_at_pos(y2, m2, p2))); }
+    return None;
+  }
+  let (y1, m1) = prev_month(y, m);
+  if y1 < 1 { return None; }
+  let p1 = pos + days_in_month(y1, m1);
+  if p1 >= 1 { return Some((y1, m1, day_at_pos(y1, m1, p1))); }
+  let (y2, m2) = prev_month(y1, m1);
+  if y2 < 1 { return None; }
+  let p2 = p1 + days_in_month(y2, m2);
+  if p2 >= 1 { return Some((y2, m2, day_at_pos(y2, m2, p2))); }
+  None
+}
+
+/// day-count distance from (by, bm, 1) to the valid date (y, m, d), for dates at most 4 months away (None beyond):
+/// the sum of the lengths of the months in between plus the position in the month.  By 13.L / 01.r this is the
+/// number of successor steps between the two dates, i.e. their ordinal difference.
+pub fn rel_offset(by: i64, bm: i64, y: i64, m: i64, d: i64) -> Option<i64> {
+  let dm = (y - by) * 12 + (m - bm);
+  if dm < -4 || dm > 4 { return None; }
+  let mut off = pos_in_month(y, m, d) - 1;
+  let (mut cy, mut cm) = (by, bm);
+  let mut j = 0;
+  while j < 4 {
+    if j < dm { off += days_in_month(cy, cm); let t = next_month(cy, cm); cy = t.0; cm = t.1; }
+    j += 1;
+  }
+  let (mut cy, mut cm) = (by, bm);
+  let mut j = 0;
+  while j < 4 {
+    if j < -dm { let t = prev_month(cy, cm); cy = t.0; cm = t.1; off -= days_in_month(cy, cm); }
+    j += 1;
+  }
+  Some(off)
+}
